@@ -221,7 +221,7 @@ def known_match(entry, case, fail):
 
 
 def subchecks(ctx):
-    return [Sub("mass", case_mass(), prop_mass, {"quick": 300, "thorough": 10000},
+    return [Sub("mass", case_mass(), prop_mass, {"quick": 2000, "thorough": 10000},
                 nontrivial=nontrivial, classes=classes, known_match=known_match,
                 rule="mass-basis point: getters, gauge-basis rebuild from reported lambdas and back, SM inputs, "
                      "Goldstones, fermion masses, CKM")]
